@@ -26,6 +26,7 @@ import (
 	"strings"
 
 	wire "github.com/jeroenrinzema/psql-wire"
+	psqlerr "github.com/jeroenrinzema/psql-wire/errors"
 	"github.com/lib/pq/oid"
 	"verif/engine/memnet"
 )
@@ -307,6 +308,9 @@ func (r *Rec) statement(i int, st Stmt, query string) *wire.PreparedStatement {
 					return fmt.Errorf("upstream closed: %w", io.EOF)
 				case "UEOF":
 					return fmt.Errorf("upstream truncated: %w", io.ErrUnexpectedEOF)
+				case "WARNING", "NOTICE", "INFO", "LOG", "DEBUG", "FATAL", "PANIC":
+					// an error the application decorated with that severity: it still is the statement's error
+					return psqlerr.WithSeverity(errors.New("decorated with severity "+op[1:]), psqlerr.Severity(op[1:]))
 				}
 				return errors.New(op[1:])
 			case op == "panic":
